@@ -10,10 +10,10 @@
    configuration are printed as <<"GEN", json>> to be replayed too.                   *)
 EXTENDS Filenames, TLC, Json
 
-CONSTANTS Alphabet, MaxNameLen, MaxSeq, Affixes, IllegalM, ReservedM, EmitGen, SampleMod
+CONSTANTS Alphabet, MaxNameLen, MaxSeq, Affixes, IllegalM, ReservedM, EmitGen, SampleMod, Heads
 
-VARIABLES names, existing, users, pfx, sfx, ev
-vars == <<names, existing, users, pfx, sfx, ev>>
+VARIABLES names, existing, users, pfx, sfx, ev, head
+vars == <<names, existing, users, pfx, sfx, ev, head>>
 
 CX == [illegal |-> IllegalM, reserved |-> ReservedM, lc |-> <<>>]
 
@@ -23,13 +23,23 @@ ReservedCon == { <<99, 111, 110>> }
 ReservedNone == { <<120>> }
 
 UserNames == UNION { [1..k -> Alphabet] : k \in 1..MaxNameLen }
+(* head: how the FIRST user name of a history begins, chosen with the initial state.  It only
+   partitions the same set of histories over more initial states, so that TLC's workers share
+   the one-step configuration (3 initial states otherwise); <<>> = no restriction.        *)
+WideHeads == UNION { [1..k -> Alphabet] : k \in 1..2 }
+NoHeads == { <<>> }
+UserNamesFor(h) == IF h = <<>> THEN UserNames
+                   ELSE IF Len(h) < 2 THEN {h}
+                   ELSE {h \o t : t \in UNION { [1..k -> Alphabet] : k \in 0..(MaxNameLen - 2) }}
+ASSUME HeadsPartition == UNION {UserNamesFor(h) : h \in Heads} = UserNames
 
 Init == /\ names = <<>> /\ existing = {} /\ users = <<>> /\ ev = {}
         /\ \E a \in Affixes : pfx = a[1] /\ sfx = a[2]
+        /\ head \in Heads
 
 (* one step of the machine (Filenames!Add, unfolded so that the events that fired are recorded) *)
 Next == /\ Len(names) < MaxSeq
-        /\ \E u \in UserNames :
+        /\ \E u \in (IF names = <<>> THEN UserNamesFor(head) ELSE UserNames) :
              LET s0 == Stage0(u, pfx) f == Filter(CX, s0)
                  c == Take(f, MaxLen - Len(pfx) - Len(sfx)) x == FixParts(CX, c)
                  full == pfx \o x \o sfx
@@ -44,14 +54,14 @@ Next == /\ Len(names) < MaxSeq
                            \cup (IF clash THEN {"clash1"} ELSE {}) \cup (IF clash /\ l > MaxLen THEN {"slice"} ELSE {})
                            \cup (IF clash /\ exhausted THEN {"clash2"} ELSE {})
                            \cup (IF clash /\ ~exhausted /\ LowerS(CX, pfx \o n1 \o ZFill(<<49>>, CounterWidth) \o sfx) \in existing THEN {"counter2"} ELSE {})
-        /\ UNCHANGED <<pfx, sfx>>
+        /\ UNCHANGED <<pfx, sfx, head>>
 (* the unfolded step is Filenames!Add *)
 StepIsAdd == names # <<>> =>
    LET k == Len(names) r == Add(CX, users[k], pfx, sfx, SubSeq(names, 1, k - 1), {LowerS(CX, names[i]) : i \in 1..(k - 1)})
    IN r[1] = names /\ r[2] = existing
 
 Last == names[Len(names)]
-View == <<existing, IF names = <<>> THEN <<>> ELSE Last, Len(names), pfx, sfx>>
+View == <<existing, IF names = <<>> THEN head ELSE Last, Len(names), pfx, sfx>>
 
 Clause ==
   IF names = <<>> THEN "ok"
